@@ -133,6 +133,10 @@ impl ColumnOptions {
 		let uniform = vals.get("uniform")?.parse().ok()?;
 		let ref_counted = vals.get("refc")?.parse().ok()?;
 		let compression: u8 = vals.get("compression").and_then(|c| c.parse().ok()).unwrap_or(0);
+		// `CompressionType::from(u8)` panics on an unknown code.
+		if compression > CompressionType::Snappy as u8 {
+			return None
+		}
 		let btree_index = vals.get("ordered").and_then(|c| c.parse().ok()).unwrap_or(false);
 		let multitree = vals.get("multitree").and_then(|c| c.parse().ok()).unwrap_or(false);
 		let append_only = vals.get("append_only").and_then(|c| c.parse().ok()).unwrap_or(false);
